@@ -47,7 +47,31 @@ def _enum_of_names(repo, names):
     return None
 
 
+def has_unknown(t) -> bool:
+    if t == UNK:
+        return True
+    if isinstance(t, tuple):
+        return any(has_unknown(x) for x in t[1:] if isinstance(x, (tuple, dict)))
+    if isinstance(t, dict):
+        return any(has_unknown(x) for x in t.values())
+    return False
+
+
 def _src(repo, ti, e):
+    if isinstance(e, ast.Call) and isinstance(e.func, ast.Attribute) and isinstance(e.func.value, ast.Name) and e.func.value.id in ('self', 'cls') \
+            and getattr(ti, 'owner', None) is not None:
+        # a helper method of the writer class: looked through like a helper function of the module
+        for c in repo.mro(ti.owner):
+            if e.func.attr in c.methods:
+                fn = c.methods[e.func.attr]
+                params = fn.args.args[1:] if c.method_kind(e.func.attr) in ('method', 'class') else fn.args.args
+                body = [b for b in fn.body if not (isinstance(b, ast.Expr) and isinstance(b.value, ast.Constant))]
+                if len(body) == 1 and isinstance(body[0], ast.Return) and body[0].value is not None and len(params) == len(e.args) and not e.keywords:
+                    from ..paths import subst
+                    inl = subst(clone(body[0].value), {a.arg: v for a, v in zip(params, e.args)})
+                    return _src(repo, ti, _StripSerialisers().visit(inl))
+                raise OpaqueHelper('C12.R2', f'{c.name}.{e.func.attr}', f'cannot see which library values the helper `{e.func.attr}` serialises '
+                                                                       f'(not a single return expression)')
     if isinstance(e, ast.Call) and isinstance(e.func, ast.Name) and e.func.id in ti.mod.functions and e.func.id not in ('str', 'convert_deal'):
         # a helper of the writer module: look through it when it is a single `return <expr>`; otherwise what it serialises
         # cannot be read off its signature (Dict[str, ...] hides which library type was stringified) - no verdict
@@ -256,6 +280,9 @@ def run(chk):
             chk.note(f'key {k!r}: {e.why} - read-back equality of this key is decided by the whole-document rule C12.R6')
             continue
         ann = log.annots[key_field[k]]
+        if has_unknown(src):
+            chk.note(f'key {k!r}: the type of `{ast.unparse(v)[:60]}` cannot be inferred - read-back equality of this key is decided by the whole-document rule C12.R6')
+            continue
         chk.require(agree(repo, src, ann), 'C12.R2', repo.where(rec.mod, v), rec.qual, f"'{k}': {ast.unparse(v)[:60]}",
                     f'key {k!r} serialises {show(src) if src[0] != "record" else "a record"} = what reader field {key_field[k]} declares',
                     f'key {k!r} serialises {src}, the reader field `{key_field[k]}` is declared {show(ann)}')
